@@ -269,7 +269,8 @@ def evidence(pid, P, tier, seed, vres, kres, bres, violations, undecided, wall):
                     '/verif/.build/bounded/release/bounded --suite <s> (bounded stand-in)',
         trusted_base=sorted(trusted) + P.get('trusted', []),
         verus=dict(groups=[dict(group=r['group'], status=r['status'], reason=r['reason'], wall_s=round(r['wall_s'], 2),
-                                solver=r.get('solver'), rewrites_applied=r.get('rewrites'), cmd=r.get('cmd')) for r in vres],
+                                solver=r.get('solver'), rewrites_applied=r.get('rewrites'), cmd=r.get('cmd'),
+                                stubbed=r.get('stubbed', [])) for r in vres],
                    per_function=per_fn, solver_ms=round(solver_ms, 1),
                    rewrite_log='evidence/extracted/<group>.extract.json'),
         kani=dict(backend=kres.get('backend'), harnesses=k_list),
